@@ -30,6 +30,55 @@ def _gen(ctx):
     return ctx.py(GEN)
 
 
+def _chain_operands(tree, fn):
+    """The operands handed to _chain_py_ast on behalf of handler `fn`, in order, each as the set of
+    handler-level expressions it is computed from.  The call may be direct or go through one
+    module-level helper whose parameters are forwarded (locals of the helper are traced back to the
+    parameters they are computed from)."""
+    import re
+    for c in P.calls(fn):
+        if P.un(c.func) == "_chain_py_ast":
+            out = []
+            for a in c.args:
+                t = P.un(a.value if isinstance(a, ast.Starred) else a)
+                m = re.findall(r"node\.\w+", t)
+                out.append(set(m) if m else {t})
+            return out
+    for c in P.calls(fn):
+        h = P.find_def(tree, P.un(c.func))
+        if h is None or h is fn or not isinstance(h, P.FUNC):
+            continue
+        inner = [x for x in P.calls(h) if P.un(x.func) == "_chain_py_ast"]
+        if not inner:
+            continue
+        params = [a.arg for a in h.args.args]
+        actual = {p: P.un(a) for p, a in zip(params, c.args)}
+        derives = {p: {p} for p in params}
+        changed = True
+        while changed:
+            changed = False
+            for a in ast.walk(h):
+                if isinstance(a, ast.Assign) and len(a.targets) == 1 and isinstance(a.targets[0], ast.Name):
+                    src = set()
+                    for x in ast.walk(a.value):
+                        if isinstance(x, ast.Name) and x.id in derives:
+                            src |= derives[x.id]
+                    if src and derives.get(a.targets[0].id, set()) != derives.get(a.targets[0].id, set()) | src:
+                        derives[a.targets[0].id] = derives.get(a.targets[0].id, set()) | src
+                        changed = True
+        out = []
+        for a in inner[0].args:
+            e = a.value if isinstance(a, ast.Starred) else a
+            ps = set()
+            for x in ast.walk(e):
+                if isinstance(x, ast.Name) and x.id in derives:
+                    ps |= derives[x.id]
+            ps -= {"ctx"}
+            out.append({actual.get(p, p) for p in ps})
+        return out
+    return []
+
+
 @rule("C02.R1", floor=8)
 def r1_sequencing_sound_combination(ctx):
     """_chain_py_ast hoists an earlier node into a temporary when a later sibling has dependencies;
@@ -88,8 +137,8 @@ def r1_sequencing_sound_combination(ctx):
     # handlers with a separately generated head and a chained tail must chain the head too
     for name, head in (("_invoke_to_py_ast", "fn_ast"), ("_interop_call_to_py_ast", "target_ast")):
         fn = ctx.fn(GEN, name)
-        chained = [c for c in P.calls(fn) if P.un(c.func) == "_chain_py_ast" and c.args and P.un(c.args[0]) == head]
-        ok = bool(chained)
+        ops = _chain_operands(tree, fn)
+        ok = bool(ops) and ops[0] == {head}
         ctx.ob("C02.R1", f"{GEN}::{name}::{head} is chained with the arguments", GEN, fn.lineno, ok,
                "" if ok else f"the value of {head}.node is used in the call expression while the arguments' statements are hoisted before it: ((t f) (if ...)) evaluates the arguments' effects first")
     for name in ("__fn_recur_to_py_ast", "__deftype_method_recur_to_py_ast", "__loop_recur_to_py_ast"):
@@ -150,9 +199,15 @@ def r2_children_generated_in_declared_order(ctx):
     # invoke: fn first in the chain
     for hname, head in (("_invoke_to_py_ast", "fn_ast"), ("_interop_call_to_py_ast", "target_ast")):
         fn = ctx.fn(GEN, hname)
-        cs = [c for c in P.calls(fn) if P.un(c.func) == "_chain_py_ast"]
-        ok = bool(cs) and P.un(cs[0].args[0]) == head and len(cs[0].args) == 2 and isinstance(cs[0].args[1], ast.Starred) and "node.args" in P.un(cs[0].args[1])
-        ctx.ob("C02.R2", f"{GEN}::{hname}::chain order ({head}, *args)", GEN, fn.lineno, ok, "" if ok else "the callee/target is not first in the chained sequence, or the arguments are not chained in order")
+        ops = _chain_operands(ctx.py(GEN), fn)
+        # every operand of the call, in source order: the callee/target, the positional arguments, then
+        # (if the handler chains them at all) the keyword argument values
+        want = [{head}, {"node.args"}] + ([{"node.kwargs"}] if any("node.kwargs" in o for o in ops) else [])
+        ok = ops == want
+        kw_used = any(isinstance(a, ast.Attribute) and P.un(a) == "node.kwargs" for a in ast.walk(fn))
+        ok = ok and (not kw_used or any("node.kwargs" in o for o in ops))
+        ctx.ob("C02.R2", f"{GEN}::{hname}::chain order ({head}, *args, *keyword values)", GEN, fn.lineno, ok,
+               "" if ok else f"the operands are chained as {[sorted(o) for o in ops]}: the callee/target is not first, the arguments are not chained in order, or the keyword values are evaluated outside the chain")
     # per-binding loop: init deps, then assignment
     for hname in ("_let_to_py_ast", "_loop_to_py_ast"):
         fn = ctx.fn(GEN, hname)
@@ -382,6 +437,37 @@ def r6_inline_templates_are_linear(ctx):
     ctx.note(f"C02.R6: {n} inline functions / templates of core.lpy analysed")
 
 
+ANA = "src/basilisp/lang/compiler/analyzer.py"
+UNORDERED_MAPS = ("lmap.map", "lmap.hash_map", "lmap.PersistentMap", "lmap.m", "immutables.Map", "Map", "frozenset", "set", "lset.set")
+
+
+@rule("C02.R8", floor=2)
+def r8_keyword_arguments_keep_their_order(ctx):
+    """Keyword-argument values of a call are sub-expressions like any other: the analyzer must hand
+    them to the generator in the order they were written.  A persistent (hash-ordered) map loses
+    it -- the values would be evaluated in an order that changes with PYTHONHASHSEED -- so the
+    mapping returned by _call_args_ast is an insertion-ordered one (a dict or a read-only view of
+    one) filled in source order."""
+    fn = ctx.fn(ANA, "_call_args_ast")
+    rets = [r.value for r in ast.walk(fn) if isinstance(r, ast.Return) and isinstance(r.value, ast.Tuple) and len(r.value.elts) == 2]
+    if not rets:
+        raise AnalysisError("anchor vanished: _call_args_ast no longer returns (args, kwargs)")
+    kwname = P.un(rets[0].elts[1])
+    assigns = [a for a in ast.walk(fn) if isinstance(a, ast.Assign) and P.un(a.targets[0]) == kwname]
+    if not assigns:
+        raise AnalysisError(f"anchor vanished: no assignment to `{kwname}` in _call_args_ast")
+    for a in assigns:
+        unordered = [c for c in ast.walk(a.value) if isinstance(c, ast.Call) and P.un(c.func) in UNORDERED_MAPS and (c.args or c.keywords)]
+        ctx.ob("C02.R8", f"{ANA}::_call_args_ast::{P.un(a)[:60]} keeps source order", ANA, a.lineno, not unordered,
+               "" if not unordered else f"the keyword arguments are collected into `{P.un(unordered[0].func)}(...)`, which is ordered by hash: their values are evaluated in an order that varies with PYTHONHASHSEED",
+               witness="(python/dict ** :a (t 1) :b (t 2) :c (t 3)) logged 3 2 1")
+    fills = [s for s in ast.walk(fn) if isinstance(s, ast.Assign) and isinstance(s.targets[0], ast.Subscript) and isinstance(P.parent(s), (ast.For, ast.If, ast.Try)) or (isinstance(s, ast.Assign) and isinstance(s.targets[0], ast.Subscript))]
+    loops = [l for l in ast.walk(fn) if isinstance(l, ast.For) and any(P.contains(l, f) for f in fills)]
+    ok = bool(loops) and all("sorted(" not in P.un(l.iter) and "reversed(" not in P.un(l.iter) and "set(" not in P.un(l.iter) for l in loops)
+    ctx.ob("C02.R8", f"{ANA}::_call_args_ast::the mapping is filled in the order of the written pairs", ANA, loops[0].lineno if loops else fn.lineno, ok,
+           "" if ok else "the key/value pairs are not visited in source order")
+
+
 COMPILER = "src/basilisp/lang/compiler/__init__.py"
 
 
@@ -435,8 +521,15 @@ SELFTEST = [
     {"name": "chain without hoisting (the repaired defect)", "file": GEN, "expect": "C02.R1",
      "old": "        if i < last_with_deps and not isinstance(n.node, ast.Constant):", "new": "        if False:"},
     {"name": "invoke merges the callee by hand again", "file": GEN, "expect": "C02.R1",
-     "old": "    args_deps, (fn_node, *args_nodes) = _chain_py_ast(\n        fn_ast, *map(partial(gen_py_ast, ctx), node.args)\n    )\n    kwargs_deps, kwargs_nodes = _kwargs_ast(ctx, node.kwargs)\n\n    return GeneratedPyAST(\n        node=ast.Call(\n            func=fn_node,",
-     "new": "    args_deps0, args_nodes = _collection_ast(ctx, node.args)\n    args_deps = list(chain(fn_ast.dependencies, args_deps0))\n    kwargs_deps, kwargs_nodes = _kwargs_ast(ctx, node.kwargs)\n\n    return GeneratedPyAST(\n        node=ast.Call(\n            func=fn_ast.node,"},
+     "old": "    deps, fn_node, args_nodes, kwargs_nodes = _call_args_ast(\n        ctx, fn_ast, node.args, node.kwargs\n    )\n\n    return GeneratedPyAST(\n        node=ast.Call(\n            func=fn_node,",
+     "new": "    deps0, args_nodes = _collection_ast(ctx, node.args)\n    deps = list(chain(fn_ast.dependencies, deps0))\n    kwargs_nodes = []\n\n    return GeneratedPyAST(\n        node=ast.Call(\n            func=fn_ast.node,"},
+    {"name": "keyword arguments collected into a persistent map (the repaired defect)", "file": ANA, "expect": "C02.R8",
+     "old": "                kwargs = types.MappingProxyType(kw_map)\n", "new": "                kwargs = lmap.map(kw_map)\n"},
+    {"name": "keyword values chained before the positional arguments", "file": GEN, "expect": "C02.R2",
+     "old": "        head_ast, *args_asts, *(gen_py_ast(ctx, kwargs[k]) for k in kwargs_keys)\n    )\n    args_nodes, kwargs_nodes = nodes[: len(args_asts)], nodes[len(args_asts) :]\n",
+     "new": "        head_ast, *(gen_py_ast(ctx, kwargs[k]) for k in kwargs_keys), *args_asts\n    )\n    kwargs_nodes, args_nodes = nodes[: len(kwargs_keys)], nodes[len(kwargs_keys) :]\n"},
+    {"name": "twin: keyword arguments kept in a plain dict", "file": ANA, "expect": None,
+     "old": "                kwargs = types.MappingProxyType(kw_map)\n", "new": "                kwargs = dict(kw_map)\n"},
     {"name": "reduce emits node before its deps", "file": GEN, "expect": "C02.R1",
      "old": "            deps.extend(n.dependencies)\n            deps.append(n.node)\n", "new": "            deps.append(n.node)\n            deps.extend(n.dependencies)\n"},
     {"name": "if generates else before then", "file": GEN, "expect": "C02.R2",
